@@ -155,8 +155,107 @@ fn users(c: &mut Ctx) {
     for k in ["zone_diffs_forward", "zone_diffs_forward_across_the_wrap", "zone_diffs_backward_refused", "sigtimes_after_the_wrap", "sigtimes_before_the_wrap", "zonefile_sigtimes_after_the_wrap", "zonefile_sigtimes_before_the_wrap"] {
         c.floor(k, 10);
     }
+    zone_users(c);
     #[cfg(feature = "crypto")]
     validator_times(c);
+}
+
+/// (2b) the zone store bumping the SOA serial on commit, and the XFR middleware deciding from an
+/// IXFR query's serial whether the client is current: both across the wrap.
+fn zone_users(c: &mut Ctx) {
+    use crate::zlib::{shared_rrset, sname};
+    use crate::zmodel::{rd_soa, RRset};
+    use domain::base::iana::{Class, Rtype};
+    use domain::base::rdata::ComposeRecordData;
+    use domain::zonetree::{AnswerContent, ZoneBuilder};
+    let rt = tokio::runtime::Builder::new_current_thread().enable_all().build().unwrap();
+    let apex: &[u8] = b"\x07example\x00";
+    let total = c.total(600, 20_000);
+    for idx in c.cases("zone-users", total) {
+        let mut rng = c.case_rng("zone-users", idx);
+        // (a) commit(true) on a zone at serial s, several times in a row: each time the serial is the next one, RFC 1982-newer
+        let s0 = match rng.below(5) { 0 => 0xFFFF_FFFFu32, 1 => 0xFFFF_FFFEu32.wrapping_sub(rng.below(3) as u32), 2 => 0x7FFF_FFFEu32.wrapping_add(rng.below(4) as u32), 3 => rng.below(5) as u32, _ => rng.u32() };
+        let r = crate::ctx::catch(|| -> Result<Vec<(u32, Option<(u32, u32)>)>, String> {
+            let mut b = ZoneBuilder::new(sname(apex), Class::IN);
+            b.insert_rrset(&sname(apex), shared_rrset(&RRset { name: apex.to_vec(), rtype: 6, ttl: 3600, rdatas: vec![rd_soa(apex, s0)] })).map_err(|_| "zone".to_string())?;
+            let zone = b.build();
+            let mut out = Vec::new();
+            for _ in 0..3 {
+                let mut wz = rt.block_on(zone.write());
+                let node = rt.block_on(wz.open(true)).map_err(|e| e.to_string())?;
+                drop(node);
+                let d = rt.block_on(wz.commit(true)).map_err(|e| e.to_string())?;
+                drop(wz);
+                let rd = zone.read();
+                let qn = sname(apex);
+                let serial = match rd.query(qn, Rtype::SOA).map_err(|e| format!("{:?}", e))?.content() {
+                    AnswerContent::Data(rr) => {
+                        let mut bts = Vec::new();
+                        rr.data().first().ok_or("no soa")?.compose_rdata(&mut bts).map_err(|_| "compose".to_string())?;
+                        u32::from_be_bytes(bts[bts.len() - 20..bts.len() - 16].try_into().unwrap())
+                    }
+                    _ => return Err("no SOA after commit".into()),
+                };
+                out.push((serial, d.map(|d| (d.start_serial.into_int(), d.end_serial.into_int()))));
+            }
+            Ok(out)
+        });
+        match r {
+            Err(pi) => c.violation(&format!("panic:{}", pi.site()), &format!("panic committing with a serial bump at serial {}: {}", s0, pi.msg), c.replay_of("zone-users", idx, json!({"serial": s0}))),
+            Ok(Err(e)) => c.violation("zone-bump:failed", &format!("commit(true) at serial {} failed: {}", s0, e), c.replay_of("zone-users", idx, json!({"serial": s0}))),
+            Ok(Ok(steps)) => {
+                let mut prev = s0;
+                for (serial, d) in steps {
+                    let want = prev.wrapping_add(1);
+                    if serial != want || ref_cmp(prev, serial) != Some(Ordering::Less) {
+                        c.violation(if prev == 0xFFFF_FFFF { "zone-bump:at-the-wrap" } else { "zone-bump:serial" }, &format!("commit with the automatic serial bump took the zone from serial {} to {}; the next serial is {}", prev, serial, want), c.replay_of("zone-users", idx, json!({"serial": s0})));
+                        break;
+                    }
+                    if let Some((a, b)) = d {
+                        if (a, b) != (prev, serial) {
+                            c.violation("zone-bump:diff-serials", &format!("the difference set of a commit from serial {} to {} runs from {} to {}", prev, serial, a, b), c.replay_of("zone-users", idx, json!({"serial": s0})));
+                            break;
+                        }
+                    } else {
+                        c.violation("zone-bump:no-diff", &format!("a commit from serial {} to {} opened with create_diff reported no difference set", prev, serial), c.replay_of("zone-users", idx, json!({"serial": s0})));
+                        break;
+                    }
+                    c.count(if serial < prev { "zone_bumps_across_the_wrap" } else { "zone_bumps" }, 1);
+                    prev = serial;
+                }
+            }
+        }
+        // (b) the IXFR decision: zone went old -> new (new is RFC 1982-newer); a client at `client`
+        let old = match rng.below(4) { 0 => 0xFFFF_FFFFu32.wrapping_sub(rng.below(3) as u32), 1 => 0x7FFF_FFFFu32.wrapping_sub(rng.below(3) as u32), 2 => rng.below(10) as u32, _ => rng.u32() };
+        let new = old.wrapping_add(*rng.pick(&[1u32, 1, 2, 3, 1000]));
+        let (client, want): (u32, &str) = match rng.below(5) {
+            0 => (old, "diffs"),
+            1 => (new, "single-soa"),
+            2 => (new.wrapping_add(1 + rng.below(1000) as u32), "single-soa"), // ahead of the zone
+            3 => (old.wrapping_sub(1 + rng.below(1000) as u32), "axfr"),        // behind, no differences on file from there
+            _ => (new.wrapping_add(0x7FFF_FF00), "single-soa"),                  // far ahead, still newer by RFC 1982
+        };
+        match crate::ctx::catch(|| crate::p10::ixfr_decision(&rt, old, new, client)) {
+            Err(pi) => c.violation(&format!("panic:{}", pi.site()), &format!("panic answering an IXFR query: {}", pi.msg), c.replay_of("zone-users", idx, json!({"old": old, "new": new, "client": client}))),
+            Ok(Err(e)) => c.violation("ixfr-decision:failed", &format!("IXFR query (zone {} -> {}, client {}) failed: {}", old, new, client, e), c.replay_of("zone-users", idx, json!({"old": old, "new": new, "client": client}))),
+            Ok(Ok(got)) => {
+                if got != want {
+                    let across = new < old || (client > new) != (ref_cmp(client, new) == Some(Ordering::Greater)) || (client < new) != (ref_cmp(client, new) == Some(Ordering::Less));
+                    c.violation(&format!("ixfr-decision:{}-instead-of-{}{}", got, want, if across { ":across-the-wrap" } else { "" }), &format!("the zone went from serial {} to {}; a client at serial {} asking for an incremental transfer gets [{}], expected [{}]", old, new, client, got, want), c.replay_of("zone-users", idx, json!({"old": old, "new": new, "client": client})));
+                } else {
+                    c.count(&format!("ixfr_decisions_{}", want), 1);
+                    if new < old || client.wrapping_sub(new) < 0x8000_0000 && client < new {
+                        c.count("ixfr_decisions_across_the_wrap", 1);
+                    }
+                }
+            }
+        }
+        c.evals_n(2);
+        c.sig(&("zone-users", s0 >> 28, want, new < old));
+    }
+    for k in ["zone_bumps", "zone_bumps_across_the_wrap", "ixfr_decisions_diffs", "ixfr_decisions_single-soa", "ixfr_decisions_axfr", "ixfr_decisions_across_the_wrap"] {
+        c.floor(k, 5);
+    }
 }
 
 /// (3) the validator deciding whether now lies inside a signature's validity period: inception
